@@ -326,7 +326,7 @@ def match_known(known, prop, item):
 # replay
 
 
-def write_replay(prop, items, crate, kani_cmd, stdout_tail):
+def write_replay(prop, items, crate, kani_cmd, stdout_tail, dialect=False):
     """One replay file per check run with refuted obligations; tries Kani concrete playback for values."""
     rdir = os.environ.get("VERIF_EVIDENCE_DIR", os.path.join(VERIF, "replay"))
     os.makedirs(rdir, exist_ok=True)
@@ -339,7 +339,7 @@ def write_replay(prop, items, crate, kani_cmd, stdout_tail):
     for h, its in list(by_h.items())[:4]:
         entry = {"harness": h, "obligations": its}
         try:
-            pb = concrete_playback(crate, h)
+            pb = concrete_playback(crate, h, dialect)
             entry.update(pb)
             if pb.get("native_reproduces"):
                 found_input = True
@@ -354,13 +354,13 @@ def write_replay(prop, items, crate, kani_cmd, stdout_tail):
     return path, found_input
 
 
-def concrete_playback(crate, harness):
+def concrete_playback(crate, harness, dialect=False):
     """Ask Kani for concrete values of the counterexample and run them natively (real unwinding, real TLS)."""
     env = dict(os.environ)
-    env["RUSTFLAGS"] = RUSTFLAGS
+    env["RUSTFLAGS"] = RUSTFLAGS + (" --cfg verif_dialect" if dialect else "")
     env["CARGO_NET_OFFLINE"] = "true"
-    cmd = ["cargo", "kani"] + KANI_FLAGS + ["-Z", "concrete-playback", "--concrete-playback=print", "--harness", harness, "--harness-timeout", "900s"]
-    r = subprocess.run(cmd, cwd=crate, env=env, capture_output=True, text=True, timeout=1200)
+    cmd = ["cargo", "kani"] + KANI_FLAGS + ["-Z", "concrete-playback", "--concrete-playback=print", "--harness", harness, "--harness-timeout", "1500s"]
+    r = subprocess.run(cmd, cwd=crate, env=env, capture_output=True, text=True, timeout=1800)
     out = r.stdout
     m = re.search(r"```\s*\n(.*?)```", out, re.S)
     res = {"playback_cmd": " ".join(cmd)}
@@ -371,11 +371,11 @@ def concrete_playback(crate, harness):
     res["concrete_test"] = test_src
     vals = re.findall(r"//\s*(-?\d+[a-z0-9]*|true|false)\s*\n\s*vec!\[[^\]]*\]", test_src)
     res["concrete_values"] = vals
-    res.update(native_replay(crate, harness, test_src))
+    res.update(native_replay(crate, harness, test_src, dialect))
     return res
 
 
-def native_replay(crate, harness, test_src):
+def native_replay(crate, harness, test_src, dialect=False):
     """Runs the harness body natively with Kani's concrete values: `cargo kani playback`."""
     # put the generated unit test next to the harness
     files = harness_names()
@@ -391,7 +391,7 @@ def native_replay(crate, harness, test_src):
         f.write("\n" + test_src + "\n")
     env = dict(os.environ)
     env["CARGO_NET_OFFLINE"] = "true"
-    env["RUSTFLAGS"] = '-A explicit_builtin_cfgs_in_flags --cfg panic="unwind" -Zcrate-attr=feature(allocator_api)'
+    env["RUSTFLAGS"] = '-A explicit_builtin_cfgs_in_flags --cfg panic="unwind" -Zcrate-attr=feature(allocator_api)' + (" --cfg verif_dialect" if dialect else "")
     cmd = ["cargo", "kani", "playback", "-Z", "concrete-playback", "--", mname.group(1)]
     try:
         r = subprocess.run(cmd, cwd=crate, env=env, capture_output=True, text=True, timeout=900)
@@ -514,7 +514,7 @@ def main():
                 json.dump({"property": prop, "refuted": new_viol, "kani_cmd": kani_cmd, "verifier_output_tail": stdout_tail[-6000:]}, open(replay_path, "w"), indent=1)
                 found = False
             else:
-                replay_path, found = write_replay(prop, new_viol, crate, kani_cmd, stdout_tail)
+                replay_path, found = write_replay(prop, new_viol, crate, kani_cmd, stdout_tail, cfg.get("dialect", False))
             for it in new_viol[:20]:
                 log("REFUTED %s :: %s  (%s)" % (it["harness"], it["description"], it["location"]))
             print("VIOLATION property=%s replay=%s obligation=%s%s" % (prop, replay_path, new_viol[0]["obligation"], "" if found else " no-failing-input-found"))
